@@ -18,6 +18,9 @@ kind "yield" — spec fields:
           `vLock_<tag>("<Func>:E.Lock", &E)`: Lock = { yield; TryLock } repeated until it succeeds (a failed
           attempt is a stutter step), Unlock = { yield; Unlock } — the Go runtime never blocks behind
           the cooperative scheduler's back
+  syncmaps list of regexes for receiver expressions that are sync.Map VALUES (e.g. "s\\.cluster\\.loadbalancer"):
+          `E.Load(..)/Store/LoadOrStore/LoadAndDelete/Delete(..)` become `vMapLoad_<tag>("<Func>:E.Load", &E, ..)`:
+          yield, then the (atomic) map operation — so check-then-act sequences on the map can be interleaved
   plain   list of {"context": regex, "expr": text, "type": go type}: inside a match of `context` the plain
           (racy) read `expr` becomes `vPlain_<tag>_<type>("<Func>:expr", &expr)` (yield, then the plain read)
   hook    (default true) define `var VerifYield func(label string)` in this file (set false for the
@@ -170,6 +173,12 @@ def rewrite_func(body, fname, tag, spec, used):
             i = close + 1
         out.append(body[i:])
         body = "".join(out)
+    for rx in spec.get("syncmaps", []):
+        def sub_map(m):
+            expr, op = m.group(1), m.group(2)
+            used["map"].add(op)
+            return "vMap%s_%s(%s, &%s, " % (op, tag, go_quote("%s:%s.%s" % (fname, expr, op)), expr)
+        body = re.sub(r"(%s)\.(LoadOrStore|LoadAndDelete|Load|Store|Delete)\(" % rx, sub_map, body)
     if spec.get("locks", False):
         def sub_lock(m):
             expr, op = m.group(1), m.group(2)
@@ -189,8 +198,20 @@ _LOCK_SRC = {
 }
 
 
+_Y = "\tif VerifYield != nil {\n\t\tVerifYield(label)\n\t}\n"
+_MAP_SRC = {
+    "Load": "func vMapLoad_%(t)s(label string, m *sync.Map, k interface{}) (interface{}, bool) {\n" + _Y + "\treturn m.Load(k)\n}\n",
+    "Store": "func vMapStore_%(t)s(label string, m *sync.Map, k, v interface{}) {\n" + _Y + "\tm.Store(k, v)\n}\n",
+    "LoadOrStore": "func vMapLoadOrStore_%(t)s(label string, m *sync.Map, k, v interface{}) (interface{}, bool) {\n" + _Y +
+                   "\treturn m.LoadOrStore(k, v)\n}\n",
+    "LoadAndDelete": "func vMapLoadAndDelete_%(t)s(label string, m *sync.Map, k interface{}) (interface{}, bool) {\n" + _Y +
+                     "\treturn m.LoadAndDelete(k)\n}\n",
+    "Delete": "func vMapDelete_%(t)s(label string, m *sync.Map, k interface{}) {\n" + _Y + "\tm.Delete(k)\n}\n",
+}
+
+
 def instrument_source(src, spec, tag):
-    used = {"atomic": set(), "plain": set(), "lock": set()}
+    used = {"atomic": set(), "plain": set(), "lock": set(), "map": set()}
     pats = [re.compile(p) for p in spec.get("funcs", [])]
     out = []
     for ch in split_funcs(src):
@@ -213,6 +234,8 @@ def instrument_source(src, spec, tag):
                    % (tag, ty, ty, ty))
     for op in sorted(used["lock"]):
         gen.append(_LOCK_SRC[op] % {"t": tag})
+    for op in sorted(used["map"]):
+        gen.append(_MAP_SRC[op] % {"t": tag})
     if spec.get("append"):
         gen.append(spec["append"] if isinstance(spec["append"], str) else "\n".join(spec["append"]))
         gen.append("\n")
@@ -240,7 +263,7 @@ def generate(kind, spec, workdir, repo):
         gen, used = instrument_source(src, sp, tag)
         need = sp.get("require", [])
         for r in need:   # the instrumentation must have found the accesses the model talks about
-            if r not in used["atomic"] and r not in used["plain"] and r not in used["lock"]:
+            if not any(r in used[k] for k in used):
                 raise ValueError("instrument: %s: expected access %s not found (file changed shape?)" % (path, r))
         out = os.path.join(outdir, tag + "_" + re.sub(r"\W", "_", kind) + ".go")
         open(out, "w").write(gen)
